@@ -209,7 +209,107 @@ def std_facts(prog, f, g=None, extra_kill=None, attr_kill=None, expand=True):
     return node.kind == 'stmt' and isinstance(a, (ast.Assign, ast.AnnAssign)) and fact[2] == u(a.value if a.value is not None else a) \
         if a is not None else False
 
+  # Path sensitivity at two-way joins: if one side knows (c, p) + F and the other (c, not p), then `(c != p) or F` holds after the join.
+  def join_facts(facts_in, ef):
+    join_gen = {}
+    for b in g.succ:
+      preds = [(a, k) for a, k in g.pred.get(b, []) if facts_in.get(a) is not None]
+      if not (2 <= len(preds) <= 5) or any(g.nodes[a].kind in ('for', 'while') and k in ('loop',) for a, k in preds):
+        continue
+      outs = []
+      for a, k in preds:
+        node_a = g.nodes[a]
+        surv = frozenset(f_ for f_ in facts_in[a] if not kill(node_a, f_))
+        outs.append(surv | frozenset(ef(node_a, k)))
+      conds = [{(f_[1], f_[2]) for f_ in o if f_[0] == 'c'} for o in outs]
+      # a compound condition known whole on one side is known through its atoms on the other (decompose splits `a and b` when true)
+      for i_ in range(len(conds)):
+        for j_ in range(len(conds)):
+          if i_ == j_:
+            continue
+          for t_, p_ in list(conds[j_]):
+            if (' and ' in t_ or ' or ' in t_) and (t_, not p_) not in conds[i_] and (t_, p_) not in conds[i_]:
+              try:
+                atoms_ = decompose(ast.parse(t_, mode='eval').body, not p_)
+              except SyntaxError:
+                continue
+              if len(atoms_) > 1 and all((a_, q_) in conds[i_] for a_, q_ in atoms_):
+                conds[i_].add((t_, not p_))
+      defs_ = [{f_[1]: f_[2] for f_ in o if f_[0] == 'def'} for o in outs]
+      gen = set()
+
+      # a name bound differently on the incoming paths: after the join it is the conditional of the definitions, selected by
+      # conditions that are known (one way or the other) on every path
+      def phi(members, name_, depth=0):
+        ds = {defs_[m][name_] for m in members}
+        if len(ds) == 1:
+          return ds.pop()
+        if depth > 3:
+          return None
+        cands = set.intersection(*[{t_ for t_, _p in conds[m]} for m in members])
+        best = None
+        for ct in sorted(cands, key=lambda x: (-(' and ' in x or ' or ' in x), len(x), x)):
+          pol = {}
+          okc = True
+          for m in members:
+            ps = {p_ for t_, p_ in conds[m] if t_ == ct}
+            if len(ps) != 1:
+              okc = False
+              break
+            pol[m] = ps.pop()
+          if not okc:
+            continue
+          T = [m for m in members if pol[m]]
+          F = [m for m in members if not pol[m]]
+          if T and F:
+            best = (ct, T, F)
+            break
+        if best is None:
+          return None
+        ct, T, F = best
+        dt, df_ = phi(T, name_, depth + 1), phi(F, name_, depth + 1)
+        if dt is None or df_ is None:
+          return None
+        return '(%s) if (%s) else (%s)' % (dt, ct, df_)
+      common = set.intersection(*[set(d) for d in defs_]) if defs_ else set()
+      for name_ in sorted(common):
+        vals = [d[name_] for d in defs_]
+        if len(set(vals)) == 1 or any(v.startswith(('unpack[', 'iter(', 'with(')) for v in vals) or sum(len(v) for v in vals) > 700:
+          continue
+        e_ = phi(list(range(len(preds))), name_)
+        if e_ is not None:
+          gen.add(('def', name_, e_))
+      if len(preds) == 2:
+        for i_ in (0, 1):
+          mine, other = conds[i_], conds[1 - i_]
+          split = [(t_, p_) for t_, p_ in mine if (t_, not p_) in other]
+          extra = [(t_, p_) for t_, p_ in mine if (t_, p_) not in other and (t_, not p_) not in other and ' or ' not in t_][:8]
+          for ct, cp in split[:3]:
+            for ft, fp in extra:
+              # on this side: c == cp and f == fp; on the other side: c == not cp
+              lit_c_other = '(%s)' % ct if not cp else 'not (%s)' % ct
+              lit_f = '(%s)' % ft if fp else 'not (%s)' % ft
+              gen.add(('c', '%s or %s' % (lit_c_other, lit_f), True))
+      if gen:
+        join_gen[b] = frozenset(sorted(gen)[:24])
+    return join_gen
+
   facts1 = g.must_facts(edge_facts, kill)
+  def with_joins(facts_in, ef):
+    """Nested branches: the conditional definition made at an inner join is an input of the join around it."""
+    acc = {}
+    cur = facts_in
+    for _ in range(3):
+      jg = join_facts(cur, ef)
+      merged = {b: acc.get(b, frozenset()) | v for b, v in jg.items()}
+      for b, v in acc.items():
+        merged.setdefault(b, v)
+      if merged == acc:
+        break
+      acc = merged
+      cur = g.must_facts(ef, kill, extra_in=acc)
+    return cur
+  facts1 = with_joins(facts1, edge_facts)
   if not expand:
     return g, facts1
 
@@ -280,34 +380,7 @@ def std_facts(prog, f, g=None, extra_kill=None, attr_kill=None, expand=True):
               out.extend(('c', tx, p) for tx, p in decompose(st_, kind == 'T'))
     return out
 
-  facts2 = g.must_facts(edge_facts2, kill)
-  # Path sensitivity at two-way joins: if one side knows (c, p) + F and the other (c, not p), then `(c != p) or F` holds after the join.
-  join_gen = {}
-  for b in g.succ:
-    preds = [(a, k) for a, k in g.pred.get(b, []) if facts2.get(a) is not None]
-    if len(preds) != 2 or any(g.nodes[a].kind in ('for', 'while') and k in ('loop',) for a, k in preds):
-      continue
-    outs = []
-    for a, k in preds:
-      node_a = g.nodes[a]
-      surv = frozenset(f_ for f_ in facts2[a] if not kill(node_a, f_))
-      outs.append(surv | frozenset(edge_facts2(node_a, k)))
-    conds = [{(f_[1], f_[2]) for f_ in o if f_[0] == 'c'} for o in outs]
-    gen = set()
-    for i_ in (0, 1):
-      mine, other = conds[i_], conds[1 - i_]
-      split = [(t_, p_) for t_, p_ in mine if (t_, not p_) in other]
-      extra = [(t_, p_) for t_, p_ in mine if (t_, p_) not in other and (t_, not p_) not in other and ' or ' not in t_][:8]
-      for ct, cp in split[:3]:
-        for ft, fp in extra:
-          # on this side: c == cp and f == fp; on the other side: c == not cp
-          lit_c_other = '(%s)' % ct if not cp else 'not (%s)' % ct
-          lit_f = '(%s)' % ft if fp else 'not (%s)' % ft
-          gen.add(('c', '%s or %s' % (lit_c_other, lit_f), True))
-    if gen:
-      join_gen[b] = frozenset(list(gen)[:24])
-  if join_gen:
-    facts2 = g.must_facts(edge_facts2, kill, extra_in=join_gen)
+  facts2 = with_joins(g.must_facts(edge_facts2, kill), edge_facts2)
   g.expanded = cache      # test node id -> condition with temporaries replaced by their definitions
   g.expanded_bool = cache_b   # ... with only boolean-valued temporaries replaced
   return g, facts2
